@@ -24,6 +24,18 @@ CLAIMED = {
     ),
 }
 
+CLAIMED["C07"] = dict(
+    category="proof",
+    text="Proof (history half): the mutable fields of the long-lived strategy objects are modelled as a state machine over abstract stages; "
+    "call_history_independent / calls_independent show that from any state with an empty seen set a call returns what a fresh object returns and leaves the seen set "
+    "empty, for every input and every sequence of earlier calls. Tied to the code by running real call sequences on one reused MethodConfig for every shipped method and "
+    "comparing each call with a fresh object and with a fresh PROCESS. Hash-seed half: decided by running the real CLI under several PYTHONHASHSEED values "
+    "and comparing output bytes (exploration, not proof: CPython set order and networkx internals are exercised, not modelled).",
+    design_ref="DESIGN.md §0, §5 C07, §14.26",
+    note="The stage functions are abstract parameters of the theorem (each reads exactly what the code reads at that point); that the real stages read nothing else is what the call-sequence correspondence tests. numpy is re-seeded with 1 before every call, as the CLI does once per process.",
+    technique="Lean 4 state-machine theorem + differential runs (call sequences vs fresh process; CLI under several hash seeds)",
+)
+
 NOT_YET = {}
 
 
